@@ -44,6 +44,10 @@ func paletteInput(x string) []byte {
 		return []byte("{\"a\":1}\n{\"b\":2}\n")
 	case "binary":
 		return []byte("\x89PNG\x0d\x0a\x1a\x0a\x00\x00\x00\x0dIHDR\x00\x00")
+	case "csvtsvabort": // both the comma and the tab reader give up before the last line
+		return []byte("a,b\nc\td\nx,y\n")
+	case "onerec":
+		return []byte("k,v\n")
 	case "blanklines":
 		return []byte("\n\n \n\n")
 	case "wsjson":
